@@ -57,6 +57,20 @@ def _leaf_build(idx, k, n, i=None):
     return leaf
 
 
+def _expand_named(body, eb, e, keep=('i',)):
+    """replace named single-assignment locals (e.g. `let pos = i + *idx;`) by their defining expression, so that hoisting a
+    sub-expression into a `let` does not hide it from the grid evaluation; loop variables in `keep` stay symbolic"""
+    if not isinstance(e, tuple):
+        return e
+    if e[0] == 'var' and e[2] not in keep:
+        ds = [d for d in eb._defs.get(e[1], []) if not d[3]]
+        if len(ds) == 1 and ds[0][1] != 'term':
+            return _expand_named(body, eb, eb.rvalue(ds[0][2].rv), keep)
+        return e
+    return tuple(_expand_named(body, eb, x, keep) if isinstance(x, tuple) else
+                 ([_expand_named(body, eb, y, keep) for y in x] if isinstance(x, list) else x) for x in e)
+
+
 def check_guards(facts, chk, rule='C01.guard'):
     build = facts.fn(SK + 'build')
     eb = ExprBuilder(build, through_vars=False)
@@ -86,7 +100,7 @@ def check_guards(facts, chk, rule='C01.guard'):
     # each read index must be i + *idx and each read must be inside the loop
     ridx = []
     for rb, t in reads:
-        ie = eb.operand(t.msg_ops[1])
+        ie = _expand_named(build, eb, eb.operand(t.msg_ops[1]))
         af = affine(ie, atom_of=lambda e: ('idx' if (e[0] == 'deref' and e[1][0] == 'arg' and e[1][2] == 'idx') else
                                            ('i' if e[0] == 'var' and e[2] == 'i' else show(e))))
         ridx.append((rb, ie, af))
@@ -288,7 +302,7 @@ def check_canon(facts, chk):
                    'lower-ordered orientation with its own middle base; forward when strands are off or on a tie; self_palindrome <=> rc && arms equal', evals=2 * n)
 
 
-def check_tables(facts, chk):
+def check_tables(facts, chk, rule='C01.pal'):
     SD = 'ska_dict::SkaDict'
     names = [f['name'] for f in facts.adt(SD)['variants'][0]['fields']]
 
@@ -326,14 +340,14 @@ def check_tables(facts, chk):
             except Panic:
                 pass
         return n, bad
-    r = chk.guard('C01.pal', 'C01.pal:add_palindrome_to_dict', go_pal)
+    r = chk.guard(rule, rule + ':add_palindrome_to_dict', go_pal)
     if r is not None:
         n, bad = r
         if bad:
-            chk.violation('C01.pal', 'C01.pal:add_palindrome_to_dict', where=SD + '::add_palindrome_to_dict', evals=n,
+            chk.violation(rule, rule + ':add_palindrome_to_dict', where=SD + '::add_palindrome_to_dict', evals=n,
                           detail='(existing, base, got, expected code of existing | {b, comp b}) = %s' % (bad[:4],))
         else:
-            chk.ok('C01.pal', 'C01.pal:add_palindrome_to_dict', SD + '::add_palindrome_to_dict', '{absent,W,S,N} x 4 bases = code(existing | {b, comp b}); other stored values diverge', evals=n)
+            chk.ok(rule, rule + ':add_palindrome_to_dict', SD + '::add_palindrome_to_dict', '{absent,W,S,N} x 4 bases = code(existing | {b, comp b}); other stored values diverge', evals=n)
 
     def go_add():
         I = Interp(facts, {'IntT': 'u64'})
@@ -350,14 +364,14 @@ def check_tables(facts, chk):
                 if got != want:
                     bad.append((chr(ex) if ex else None, b, got, want))
         return n, bad
-    r = chk.guard('C01.pal', 'C01.pal:add_to_dict', go_add)
+    r = chk.guard(rule, rule + ':add_to_dict', go_add)
     if r is not None:
         n, bad = r
         if bad:
-            chk.violation('C01.pal', 'C01.pal:add_to_dict', where=SD + '::add_to_dict', evals=n,
+            chk.violation(rule, rule + ':add_to_dict', where=SD + '::add_to_dict', evals=n,
                           detail='(existing, base, got, expected) = %s' % (bad[:4],))
         else:
-            chk.ok('C01.pal', 'C01.pal:add_to_dict', SD + '::add_to_dict', '{absent + 15 codes} x 4 bases = code(existing | {b})', evals=n)
+            chk.ok(rule, rule + ':add_to_dict', SD + '::add_to_dict', '{absent + 15 codes} x 4 bases = code(existing | {b})', evals=n)
 
 
 def block_tables(facts, body, heads, targets):
@@ -512,6 +526,10 @@ def check_report(facts, chk):
 
 
 def run(facts, chk, tier, only=None):
+    from . import skiter
+    # the iterator itself, functionally, on a bounded family of sequences (complements the guard-tightness rule)
+    chk.guard('C01.func', 'C01.func:iterator', lambda: skiter.check_contigs(facts, chk, 'C01.func', tier))
+    chk.guard('C01.func', 'C01.func:dictionary', lambda: skiter.check_dict(facts, chk, 'C01.func', tier))
     chk.guard('C01.report', 'C01.report:run', lambda: check_report(facts, chk))
     chk.guard('C01.guard', 'C01.guard:run', lambda: check_guards(facts, chk))
     chk.guard('C01.args', 'C01.args:run', lambda: check_args(facts, chk))
